@@ -11,6 +11,10 @@ from concurrent.futures import ThreadPoolExecutor
 
 # 'E': expression form - the type of the expression is reported; 'S': statement form.
 UNARY = {
+    "memcmp_with_raw": ("E", "rlbox::memcmp(e.sb, {x}, e.r_ptr, 4u)"),
+    "memcmp_raw_first": ("E", "rlbox::memcmp(e.sb, e.r_ptr, {x}, 4u)"),
+    "memcmp_with_self": ("E", "rlbox::memcmp(e.sb, {x}, {x}, 4u)"),
+    "memcmp_tainted_len": ("E", "rlbox::memcmp(e.sb, {x}, e.r_ptr, e.t_int)"),
     "neg": ("E", "-{x}"), "compl": ("E", "~{x}"), "not": ("E", "!{x}"), "deref": ("E", "*{x}"), "addr": ("E", "&{x}"),
     "arrow": ("E", "{x}.operator->()"), "preinc": ("E", "++{x}"), "postinc": ("E", "{x}++"), "predec": ("E", "--{x}"),
     "postdec": ("E", "{x}--"),
